@@ -165,37 +165,52 @@ def rule_grapheme_map(ctx):
         ctx.ok(site(fn, gc[0][0]), "extended grapheme clusters requested (graphemes(true))")
     else:
         ctx.violation(GRAPHEMES + "|extended|1", site(fn, gc[0][0]), "legacy (non-extended) grapheme clusters requested")
-    cl = closure_creations(fn)
-    if len(cl) != 1:
-        raise Inconclusive("chars::graphemes: expected one mapping closure")
-    cf = get_fn(facts, M, cl[0][3])
-    # CR LF -> '\n', else first char of the cluster
-    eqs = [(bi, t) for bi, t in cf.calls(lambda t: str(t.get("fn")).endswith("PartialEq::eq"))]
-    crlf = False
-    for bi, t in eqs:
-        o = show(cf.expr_of_operand(t["args"][1]))
-        if "\\r\\n" in o:
-            sw = cf.blocks[t["target"]]["term"]
-            tt = sw["otherwise"] if sw["k"] == "switch" else None
-            if tt is not None:
-                for x in cf.reach_from(tt):
-                    if not cf.must_pass(x, via_edges=[(t["target"], tt)]):
-                        continue
-                    for s in cf.blocks[x]["stmts"]:
-                        if s["k"] == "assign" and s["lhs"]["l"] == 0:
-                            e = cf.expr_of_rvalue(s["rv"])
-                            if e[0] == "const" and e[1] == 10:
-                                crlf = True
-    first = False
-    for bi, t in cf.calls(lambda t: callee(t).endswith("::next")):
-        e = cf.expr_of_operand(t["args"][0])
-        if any(x[0] == "call" and str(x[1]).endswith("str>::chars") for x in walk(e)):
-            first = True
-    lastc = any(callee(t).endswith("::last") or callee(t).endswith("next_back") or callee(t).endswith("::rev") for bi, t in cf.calls())
-    if crlf and first and not lastc:
+    # the mapping function handed to `.map(..)`: a closure literal or a named function
+    from cfg import decision_paths
+    mp = [(bi, t) for bi, t in fn.calls(lambda t: str(t.get("fn")).endswith("Iterator::map"))]
+    if len(mp) != 1:
+        raise Inconclusive("chars::graphemes: expected exactly one `.map(..)` over the grapheme iterator")
+    mf = fn.expr_of_operand(mp[0][1]["args"][1])
+    if mf[0] == "closure":
+        cf = get_fn(facts, M, mf[1])
+        carg = 2
+    elif mf[0] == "fnitem":
+        cf = get_fn(facts, M, mf[1])
+        carg = 1
+    else:
+        raise Inconclusive("chars::graphemes: mapping function is neither a closure nor a function item: %s" % show(mf)[:60])
+    # decision table of the mapping: CR LF -> '\n', anything else -> first code point of the cluster
+    crlf = first = False
+    lastc = False
+    bad = None
+    for conds, res in decision_paths(cf):
+        is_crlf = None
+        for d, chosen, allv in conds:
+            d0 = strip_casts(d)
+            if d0[0] == "call" and str(d0[3] or d0[1]).endswith("PartialEq::eq") and "\\r\\n" in show(d0):
+                is_crlf = (chosen != 0) if chosen is not None else True
+            elif d0[0] == "call" and str(d0[3] or d0[1]).endswith("PartialEq::ne") and "\\r\\n" in show(d0):
+                is_crlf = not ((chosen != 0) if chosen is not None else True)
+        if res is None:
+            continue   # diverging path (expect on an empty cluster)
+        r0 = strip_casts(res)
+        if is_crlf:
+            if r0[0] == "const" and r0[1] == 10:
+                crlf = True
+            else:
+                bad = "CR LF is mapped to %s" % show(res)[:60]
+        else:
+            calls_ = [x for x in walk(res) if x[0] == "call"]
+            if any(str(x[1]).endswith("::next") for x in calls_) and any(str(x[1]).endswith("str>::chars") for x in calls_):
+                first = True
+            if any(str(x[1]).endswith("::last") or str(x[1]).endswith("next_back") or str(x[1]).endswith("::rev") for x in calls_):
+                lastc = True
+            if is_crlf is None and r0[0] == "const":
+                bad = "every cluster is mapped to a constant"
+    if crlf and first and not lastc and bad is None:
         ctx.ok(site(cf, 0), "cluster ↦ '\\n' for CR LF, otherwise its first code point")
     else:
-        ctx.violation(GRAPHEMES + "|map|1", site(cf, 0), "grapheme mapping is not (CR LF ⇒ '\\n'; else first code point): crlf=%s first=%s last/rev=%s" % (crlf, first, lastc))
+        ctx.violation(GRAPHEMES + "|map|1", site(cf, 0), "grapheme mapping is not (CR LF ⇒ '\\n'; else first code point): crlf=%s first=%s last/rev=%s %s" % (crlf, first, lastc, bad or ""))
 
 
 def variant_arms(fn):
@@ -292,6 +307,31 @@ def rule_accessors(ctx):
                 continue
             rng = [x for x in walk(res) if x[0] == "agg" and str(x[1]).endswith("Range::Range")]
             if not rng:
+                # delegation to a sibling of the family with the bounds passed on as a (Bound, Bound) pair: the pair
+                # must carry the same variants and the (widened) payloads; the sibling's own table is checked above/below
+                r0 = res
+                while r0[0] in ("ref", "deref", "cast"):
+                    r0 = r0[2] if r0[0] == "cast" else r0[1]
+                deleg = None
+                if r0[0] == "call" and str(r0[1]).rsplit("::", 1)[-1] in ("slice", "slice_u32") and "utf32_str::" in str(r0[1]) and len(r0[2]) >= 2:
+                    tp = r0[2][1]
+                    while tp[0] in ("ref", "deref"):
+                        tp = tp[1]
+                    if tp[0] == "tuple" and len(tp[1]) == 2 and all(x[0] == "agg" and "Bound::" in str(x[1]) for x in tp[1]):
+                        deleg = tp[1]
+                if deleg is not None:
+                    names_ = {0: "Included", 1: "Excluded", 2: "Unbounded"}
+                    okd = True
+                    for which, comp in (("S", deleg[0]), ("E", deleg[1])):
+                        var = str(comp[1]).rsplit("::", 1)[-1]
+                        if var != names_[k[which]]:
+                            okd = False
+                        elif var != "Unbounded" and poly_of(comp[2].get("0"), atomize) != Poly.atom(which):
+                            okd = False
+                    seen.add((k["S"], k["E"]))
+                    if not okd:
+                        problems.append("bounds (%s, %s) are passed on to %s as %s" % (k["S"], k["E"], str(r0[1]).rsplit("::", 1)[-1], show(tp)[:80]))
+                    continue
                 problems.append("no index range on the path (start %s, end %s)" % (k["S"], k["E"]))
                 continue
             st = poly_of(rng[0][2]["start"], atomize)
